@@ -345,6 +345,6 @@ def run(ctx):
     quick = ctx.tier == 'quick'
     ctx.run_cases([{'kind': 'registry', 'registry': r}
                    for r in ('CODES', 'DECODERS', 'ERROR_MODELS')], serial=True)
-    ctx.run_hypothesis('spec_cases', 480 if quick else 8000)
+    ctx.run_hypothesis('spec_cases', 480 if quick else 30000)
     import shutil
     shutil.rmtree(runner.scratch_dir('c13'), ignore_errors=True)
